@@ -253,7 +253,21 @@ func init() {
 				ex.clock = ex.tc.Const(64, 0)
 			}
 			ex.clock = ex.tc.Bin(OAdd, ex.clock, d)
+			if ex.clockMin != nil {
+				ex.assume(ex.tc.Cmp(OSle, ex.clockMin, ex.clock), "virtual clock: time.Sleep(d) advances the clock by at least d")
+				ex.clockMin = nil
+			}
 			return ex.clock
+		},
+		z + "OnWait": func(ex *Exec, fn *ssa.Function, args []Value, site token.Pos) Value {
+			ex.waitBudget = int(ex.argInt(args[0]))
+			ex.onWait = args[1]
+			return nil
+		},
+		z + "SleepMayReturnEarly": func(ex *Exec, fn *ssa.Function, args []Value, site token.Pos) Value {
+			ex.sleepWeak = true
+			ex.stub("time.Sleep may return early (clock advances by >= 0)")
+			return nil
 		},
 		z + "Thorough": func(ex *Exec, fn *ssa.Function, args []Value, site token.Pos) Value {
 			return ex.tc.Bool(ex.job != nil && ex.job.Cfg.Tier == "thorough")
@@ -414,6 +428,10 @@ func init() {
 		"time.Sleep": func(ex *Exec, fn *ssa.Function, a []Value, site token.Pos) Value {
 			ex.stub("time.Sleep (virtual clock advances by >= d)")
 			ex.sleep(a[0].(*Term))
+			if ex.waitBudget > 0 && ex.onWait != nil {
+				ex.waitBudget--
+				ex.callValue(ex.onWait, nil, site)
+			}
 			return nil
 		},
 
